@@ -312,6 +312,8 @@ Proof.
     + subst. rewrite Z.eqb_refl in Hs. discriminate.
     + rewrite (Hne Ee). auto.
   - dmatch H; inversion H; subst; exists r; auto.
+  - dmatch H; inversion H; subst; exists r; auto.
+  - dmatch H; inversion H; subst; exists r; auto.
 Qed.
 
 Lemma pending_run : forall ls s t id s', Inv s -> pending s t id -> run s ls = Some s' ->
@@ -353,13 +355,14 @@ Qed.
    lets the thread block: it accepts this trace, which the full-strength monitor rejects.  The current code
    (step_gen true) does not accept it: it hands the delivery to interest 1 (d5_fixed_trace). *)
 Definition d5_prefix : list label :=
-  [LLock 0; LReg 0 1 10 true false 1000 (Some true); LUnlock 0;
-   LLock 0; LReg 0 2 10 true true 2000 None; LUnlock 0;
+  [LMask 0 true; LLock 0; LSaMask 0 10 true; LReg 0 1 10 true false 1000 (Some true); LUnlock 0; LMask 0 false;
+   LMask 0 true; LLock 0; LReg 0 2 10 true true 2000 None; LUnlock 0; LMask 0 false;
    LSigEnter 0 10 false; LPost 0 2; LSigExit 0;
-   LLock 0].
-Definition d5_trace : list label := d5_prefix ++ [LUnreg 0 2 None; LUnlock 0; LBlock 0].
+   LMask 0 true; LLock 0].
+Definition d5_trace : list label := d5_prefix ++ [LUnreg 0 2 None; LUnlock 0; LMask 0 false; LBlock 0].
 Definition d5_fixed_trace : list label :=
-  d5_prefix ++ [LUnreg 0 2 None; LPost 0 1; LUnlock 0; LRead 0 1; LLock 0; LClear 0 1; LUnlock 0; LHandler 0 1; LBlock 0].
+  d5_prefix ++ [LUnreg 0 2 None; LPost 0 1; LUnlock 0; LMask 0 false;
+                LRead 0 1; LMask 0 true; LLock 0; LClear 0 1; LUnlock 0; LMask 0 false; LHandler 0 1; LBlock 0].
 
 Lemma d5_regression :
   accepts_gen false d5_trace = true /\ monitor true d5_trace = false /\ monitor false d5_trace = true /\
@@ -367,3 +370,56 @@ Lemma d5_regression :
   accepts d5_fixed_trace = true /\ monitor true d5_fixed_trace = true /\ accepts_gen false d5_fixed_trace = false /\
   existsb (fun l => match l with LHandler _ _ => true | _ => false end) d5_trace = false.
 Proof. vm_compute. repeat split; reflexivity. Qed.
+
+(* ---------- masks: sig_lock is held only with all signals blocked by the holder, or inside iv_signal_handler
+   (which runs with every signal blocked: LSaMask) -- so no delivery can hit the holder and spin on the lock ---------- *)
+Definition lock_masked (s : state) : Prop :=
+  forall t, lock s = Some t ->
+    match stg s t with
+    | SIdle | SExit => masked s t = true     (* outside the handler / handler in a forked child: all signals blocked *)
+    | SThr _ | SNeedLock _ => False          (* the handler does not hold the lock while it walks the thread's own set *)
+    | SProc _ | SUnreg _ => True             (* in the handler (every signal blocked: LSaMask) / unregister (masked before) *)
+    end.
+
+Lemma lock_masked_inv : forall s, reachable s -> lock_masked s.
+Proof.
+  intros s R. pattern s. revert s R. apply reachable_ind_inv.
+  - intros t H. discriminate.
+  - intros s l s' R IH H. unfold lock_masked in *.
+    assert (Gstg : forall t0 s0 x, lock s0 = lock s -> masked s0 = masked s -> stg s0 = stg s ->
+               (lock s = Some t0 -> match x with SIdle | SExit => masked s t0 = true | SThr _ | SNeedLock _ => False | _ => True end) ->
+               forall u, lock (with_stg s0 t0 x) = Some u ->
+                 match stg (with_stg s0 t0 x) u with SIdle | SExit => masked (with_stg s0 t0 x) u = true | SThr _ | SNeedLock _ => False | _ => True end)
+      by (intros t0 s0 x E1 E2 E3 Hx u Hu; simpl in *; rewrite E1 in Hu; rewrite E2, E3; unfold upd;
+          destruct (u =? t0) eqn:Eu; [apply Z.eqb_eq in Eu; subst u; apply Hx; exact Hu|apply IH; exact Hu]).
+    destruct l; simpl in H.
+    + (* LLock *) destruct (lock s) eqn:El; [discriminate|]. destruct (stg s t) eqn:Es; try discriminate.
+      * destruct (masked s t) eqn:Em; [|discriminate]. inversion H; subst. simpl. intros u Hu. inversion Hu; subst. rewrite Es. exact Em.
+      * inversion H; subst. simpl. intros u Hu. inversion Hu; subst. rewrite upd_same. exact I.
+    + (* LUnlock *) dmatch H; inversion H; subst; simpl; intros u Hu; discriminate.
+    + (* LReg *) dmatch H; inversion H; subst; simpl; exact IH.
+    + (* LUnreg *) destruct (holds s t && is_idle (stg s t)) eqn:E0; [|discriminate]. apply andb_true_iff in E0. destruct E0 as [Eh _].
+      apply holds_lock in Eh. dmatch H; inversion H; subst; simpl; intros u Hu; try (apply IH; exact Hu);
+        unfold upd; (destruct (u =? t) eqn:Eu; [exact I|apply IH; exact Hu]).
+    + (* LSigEnter *) destruct (is_idle (stg s t)) eqn:Ei; [|discriminate]. destruct (disp s sig); [|discriminate].
+      destruct (child || negb (holds s t)) eqn:Ec; [|discriminate]. simpl in H.
+      assert (Hidle : stg s t = SIdle) by (destruct (stg s t); try discriminate; reflexivity).
+      destruct (child || negb (owner s)) eqn:Eo.
+      * inversion H; subst. apply (Gstg t s SExit); auto. intro Hu. specialize (IH t Hu). rewrite Hidle in IH. exact IH.
+      * (* not in a child: the thread does not hold the lock *)
+        assert (Hnl : lock s <> Some t).
+        { intro Hl. destruct child; [discriminate|]. simpl in Ec. unfold holds in Ec. rewrite Hl, Z.eqb_refl in Ec. discriminate. }
+        destruct (wake_plan (Some t) sig (regs s)); inversion H; subst; apply (Gstg t s); auto; intro Hu; exfalso; apply Hnl; exact Hu.
+    + dmatch H. inversion H; subst. exact IH.
+    + (* LPost *) dmatch H; inversion H; subst; apply (Gstg t (do_post s id)); auto; intro Hu; specialize (IH t Hu); rewrite E in IH; exact IH.
+    + (* LSigExit *) dmatch H; inversion H; subst; apply (Gstg t s); auto; intro Hu; specialize (IH t Hu); rewrite E in IH; try contradiction; exact IH.
+    + dmatch H; inversion H; subst; simpl; exact IH.
+    + dmatch H; inversion H; subst; simpl; exact IH.
+    + dmatch H; inversion H; subst; simpl; exact IH.
+    + dmatch H; inversion H; subst; simpl; exact IH.
+    + (* LMask *) destruct (all || negb (holds s t && needs_mask (stg s t))) eqn:E0; [|discriminate]. inversion H; subst. simpl.
+      intros u Hu. specialize (IH u Hu). unfold upd. destruct (u =? t) eqn:Eu; [|exact IH]. apply Z.eqb_eq in Eu. subst u.
+      destruct all; [destruct (stg s t); auto|]. simpl in E0. apply negb_true_iff in E0. unfold holds in E0. rewrite Hu, Z.eqb_refl in E0.
+      simpl in E0. destruct (stg s t); simpl in E0; try discriminate; exact IH.
+    + dmatch H. inversion H; subst. exact IH.
+Qed.
